@@ -424,6 +424,35 @@ def jobs_c17(tier, seed):
     return [J(f"c17::{n}", features=f, timeout_s=900, bound=b) for n, b in names]
 
 
+def pre_c16(prop, tier, seed, out):
+    """Oracle validation (native, not a solver query): the reference tables are rendered with
+    the target libraries themselves and read back with the SGR model."""
+    import shutil
+    import subprocess
+    import time
+
+    src = runner.CRATES["adapters"]
+    dst = runner.workdir(prop) / "crate-adapters-native"
+    if dst.exists():
+        shutil.rmtree(dst)
+    dst.parent.mkdir(parents=True, exist_ok=True)
+    shutil.copytree(src, dst, ignore=shutil.ignore_patterns("target", "Cargo.lock"))
+    runner.retarget(dst)
+    if (runner.REPO / "Cargo.lock").exists():
+        shutil.copy(runner.REPO / "Cargo.lock", dst / "Cargo.lock")
+    env = dict(runner.BASE_ENV)
+    env["CARGO_TARGET_DIR"] = str(runner.WORK / "adapters-native")
+    t0 = time.time()
+    r = subprocess.run(["cargo", "test", "--offline", "--test", "render"], cwd=dst, env=env, capture_output=True, text=True, timeout=1800)
+    ok = r.returncode == 0 and "test result: ok" in r.stdout
+    out.extra_samples.append({"query": "reference-table validation (native)", "what": "each reference value rendered by ansi_term / crossterm / owo-colors / termcolor / yansi and interpreted by vmodels::sgr",
+                              "status": "ok" if ok else "failed", "wall_s": round(time.time() - t0, 1)})
+    if not ok:
+        out.inconclusive.append("reference tables disagree with the target libraries' own rendering (oracle problem): " + (r.stdout + r.stderr)[-600:])
+    else:
+        runner.log("  reference tables confirmed by the target libraries' own rendering")
+
+
 def jobs_c16(tier, seed):
     f = ["c16"]
     names = [
@@ -440,6 +469,7 @@ def jobs_c16(tier, seed):
 REGISTRY = {
     "C16": {
         "jobs": jobs_c16,
+        "pre": pre_c16,
         "level": "proof",
         "functions": [
             "anstyle_ansi_term::to_ansi_term", "anstyle_crossterm::to_crossterm",
